@@ -223,8 +223,9 @@ func cmdCheck(args []string) {
 		}
 	}
 	usedLemmas := map[string]bool{}
+	gens := w.verifyAll(keys)
 	for _, k := range keys {
-		g := w.verifyFunc(k)
+		g := gens[k]
 		for _, o := range g.obls {
 			// clause-level tags only name clauses: every obligation of a function that serves the
 			// property is checked, because assertions, invariants and callee postconditions are
@@ -534,6 +535,7 @@ func cmdCheck(args []string) {
 		"trusted_base":             tb,
 		"functions_under_contract": keys,
 		"inlined_helpers":          sortedKeys(inlined),
+		"contract_names_rebound":   w.aliasNotes,
 		"by_backend":               byBackend,
 		"smoke_checks_passed":      nSmoke,
 		"solver_s":                 solverTime,
